@@ -39,6 +39,7 @@ func cliProject(res *Result, sc *cliScenario, r *cliRun, prop string) (string, *
 	returns := map[string]int{}
 	ops := map[string]bool{}
 	stoppedKind := ""
+	var pendingStop []string
 	shutdown := false
 	cancelledTags := map[string]bool{}
 	deliveredIDs := map[string]bool{}
@@ -122,19 +123,19 @@ func cliProject(res *Result, sc *cliScenario, r *cliRun, prop string) (string, *
 					}
 				}
 			case "cli.close.enter":
-				trace = append(trace, "x:1")
+				pendingStop = append(pendingStop, "x:1")
 				if stoppedKind == "" {
 					stoppedKind = "close"
 				}
 			case "cli.accept.recv":
 				if len(f) > 2 { // Recv error
-					trace = append(trace, "x:2")
+					pendingStop = append(pendingStop, "x:2")
 					if stoppedKind == "" {
 						stoppedKind = strings.TrimPrefix(f[2], "err=")
 					}
 				} else {
 					if accepts < len(peerSends) && !json.Valid([]byte(peerSends[accepts])) {
-						trace = append(trace, "x:3")
+						pendingStop = append(pendingStop, "x:3")
 						if stoppedKind == "" {
 							stoppedKind = "parse"
 						}
@@ -142,6 +143,16 @@ func cliProject(res *Result, sc *cliScenario, r *cliRun, prop string) (string, *
 					accepts++
 				}
 			}
+		case "onstop":
+			// the client stops when stopLocked runs, which is when the OnStop hook fires - not when
+			// the goroutine that will cause it passed its hook (user code such as the Logger may
+			// run, and other goroutines with it, in between)
+			if len(pendingStop) > 0 {
+				trace = append(trace, pendingStop[0])
+			} else {
+				trace = append(trace, "x:1")
+			}
+			pendingStop = nil
 		case "ret":
 			tag := f[1]
 			got := strings.Join(f[2:], " ")
